@@ -2,19 +2,25 @@
 # Usage: tools/eval_refactors.sh <dir-with-R*.diff> ...   : every behaviour-preserving refactoring must leave all checks silent.
 WT=/tmp/refac_eval_wt
 git -C /repo worktree remove --force $WT 2>/dev/null; rm -rf $WT
-git -C /repo worktree add -q --detach $WT HEAD || exit 2
+git -C /repo worktree add -q --detach $WT ${BASE:-HEAD} || exit 2
 cd "$(dirname "$0")/.."
 props=$(python3 -c "import json;print(' '.join(c['property_id'] for c in json.load(open('MANIFEST.json'))['checks']))")
 for d in "$@"; do
   for f in $d/R*.diff; do
     [ -f "$f" ] || continue
-    git -C $WT checkout -q -- . ; git -C $WT clean -qfd
-    if ! git -C $WT apply "$f" 2>/dev/null; then echo "$f: does not apply"; continue; fi
+    git -C $WT reset -q --hard; git -C $WT clean -qfd
+    if ! git -C $WT apply "$f" 2>/dev/null; then
+      if ! git -C $WT apply -3 "$f" >/dev/null 2>&1; then echo "$f: does not apply to $(git -C $WT rev-parse --short HEAD)"; continue; fi
+      git -C $WT reset -q
+    fi
     alarms=""
+    rm -f /tmp/refac_eval_out.*
     for p in $props; do
-      out=$(SA_REPO=$WT SA_EVIDENCE_DIR=/tmp/refac_eval_ev python3-vt sa/check.py $p 2>&1); code=$?
-      if [ $code -ne 0 ]; then alarms="$alarms $p(exit=$code:$(echo "$out" | grep -o '\[C[0-9]*\.[A-Za-z0-9]*\]' | sort -u | tr -d '\n')$(echo "$out" | grep -c ANALYSIS-ERROR | sed 's/^0$//;s/^[1-9].*/ANALYSIS-ERROR/'))"; fi
+      ( out=$(SA_REPO=$WT SA_EVIDENCE_DIR=/tmp/refac_eval_ev/$p python3-vt sa/check.py $p 2>&1); code=$?
+        if [ $code -ne 0 ]; then echo " $p(exit=$code:$(echo "$out" | grep -o '\[C[0-9]*\.[A-Za-z0-9]*\]' | sort -u | tr -d '\n')$(echo "$out" | grep -c ANALYSIS-ERROR | sed 's/^0$//;s/^[1-9].*/ANALYSIS-ERROR/'))" > /tmp/refac_eval_out.$p; fi ) &
     done
+    wait
+    alarms=$(cat /tmp/refac_eval_out.* 2>/dev/null | tr -d '\n')
     if [ -z "$alarms" ]; then echo "$f: silent"; else echo "$f: ALARM$alarms"; fi
   done
 done
